@@ -1,9 +1,10 @@
 /-
-C14  Counts, detailed report and best-seen file agree with what was evaluated.   (PARTIAL for the scale clause)
+C14  Counts, detailed report and best-seen file agree with what was evaluated.   
 
 Theorems about the controller (L6: counts, report items), the report writer (L7: `Proc.writeAll`) and the adaptive
-probabilities (L4c), for EVERY event list / item list.  "Positive finite mutation scale" is not provable: the scale is
-an unclamped product (an observed value); it is checked on every in-run record by K-algo, long histories included.
+probabilities (L4c), for EVERY event list / item list.  "Positive finite mutation scale" holds since fix b409d3c clamps the scale (`C14_meta_scale`, an
+obligation on the extracted source fact `Generated.scaleClamped`); it is also checked on every in-run record by K-algo,
+long adaptive histories (60 000 evaluations) included.
 Float laws used: FL-mul-sign (probabilities).
 -/
 import CambrianModel.Lemmas.PopInv
@@ -254,6 +255,33 @@ theorem C14_meta_probs (x : F64) (hx : Meta.MulSign x) : Meta.isProb (Meta.probO
     · simp [h, F64.le_fin]
     · simp only [h, decide_false, Bool.false_eq_true, ↓reduceIte, F64.le_fin, Bool.and_eq_true, decide_eq_true_eq]
       omega
+
+/-- The adaptive mutation scale is positive and finite, whatever the observed product (a number `>= 0`, possibly 0
+    by underflow or `+inf` by overflow: FL-mul-sign) - PROVIDED the source clamps it (`Generated.scaleClamped`,
+    extracted from `meta_adapt.rs`; if the clamp is lost this theorem no longer checks).  Before fix b409d3c the scale
+    reached `inf` after about 26 000 evaluations (negative witness below). -/
+theorem C14_meta_scale (x : F64) (hx : Meta.MulSign x) : Meta.isScale (Meta.scaleOut Generated.scaleClamped x) = true := by
+  have hg : Generated.scaleClamped = true := by decide
+  rw [hg]
+  unfold Meta.MulSign at hx
+  cases x with
+  | nan => simp [F64.le, F64.lt, F64.feq] at hx
+  | ninf => simp [F64.le, F64.lt, F64.feq] at hx
+  | pinf => simp [Meta.isScale, Meta.scaleOut, Meta.clampF, Meta.minPositive, Meta.maxFinite, F64.lt, F64.isFinite]
+  | fin k =>
+    have hk : 0 ≤ k := by rw [F64.le_fin] at hx; simpa using hx
+    simp only [Meta.isScale, Meta.scaleOut, Meta.clampF, Meta.minPositive, Meta.maxFinite, F64.lt_fin, if_true]
+    by_cases h1 : k < 4503599627370496
+    · simp [h1, F64.isFinite, F64.lt_fin]
+    · by_cases h2 : (9218868437227405311 : Int) < k
+      · simp [h1, h2, F64.isFinite, F64.lt_fin]
+      · simp only [h1, h2, decide_false, Bool.false_eq_true, ↓reduceIte, F64.isFinite, F64.lt_fin, Bool.true_and,
+          decide_eq_true_eq]
+        omega
+
+/-- negative witness: without the clamp an overflowing product is handed on as it is (the defect D11) -/
+example : Meta.MulSign .pinf ∧ Meta.isScale (Meta.scaleOut false .pinf) = false := by
+  simp [Meta.MulSign, Meta.isScale, Meta.scaleOut, F64.le, F64.lt, F64.feq, F64.isFinite]
 
 /-! ### L7: the report writer is drained before `launch` returns - also when the run failed -/
 
